@@ -753,6 +753,19 @@ class Model:
             return self._reduce(interp, name, v, node)
         if name == '__format__':
             return Opaque('format')
+        if name in ('tolist', 'item') and v.kind == 'raw' and not args:
+            if isinstance(v.term, Vec) and name == 'tolist':
+                # the three numbers of one vector, as Python floats
+                out = []
+                for ax in ('x', 'y', 'z'):
+                    c = self.new(interp, T.comp(v.term, ax), DIMENSIONLESS, 'float64', v.taint)
+                    c.kind = 'raw'
+                    c.members['is_array'] = False
+                    c.members['dims'] = []
+                    out.append(c)
+                return out
+            if isinstance(v.term, Rat) and not v.members.get('is_array', False):
+                return v  # a 0-d value: the number itself
         r = self.new(interp, None, None, None, v.taint, f'unknown method {name}')
         r.may_alias.add(v.id)
         interp.event('unknown-method', node, name=name, stmt=_text(node))
@@ -1092,6 +1105,9 @@ class Model:
         t = None
         if isinstance(val, list | tuple) and len(val) == 3 and all(isinstance(x, int | float) for x in val):
             t = Vec.literal(*val) * (unit.scale() if unit else 1)
+        elif isinstance(val, list | tuple) and len(val) == 3 and all(isinstance(x, SVar) and x.kind == 'raw' and isinstance(x.term, Rat) for x in val) \
+                and unit is not None:
+            t = T.as_vectors(*[x.term for x in val]) * unit.scale()  # a vector from three bare numbers
         elif isinstance(val, SVar) and val.kind == 'raw':
             interp.event('raw-relabel', node, unit=repr(unit), stmt=_text(node))
             if isinstance(val.term, Vec) and unit is not None:
